@@ -323,3 +323,18 @@ Fixpoint perm_b (a b : list item) : bool :=
 Fixpoint mem_path (p : path) (l : list path) : bool :=
   match l with [] => false | q :: l' => bytes_eqb p q || mem_path p l' end.
 
+
+(** well-formed listings: no name contains "/" and sibling names are distinct (any real file tree) *)
+Definition tname (t : tree) : name := match t with File n => n | Dir n _ => n end.
+Definition good_name (n : name) : bool := negb (existsb (N.eqb SLASH) n).
+Fixpoint uniq (l : list name) : bool :=
+  match l with [] => true | n :: l' => negb (mem_path n l') && uniq l' end.
+Fixpoint wf_tree (t : tree) : bool :=
+  match t with
+  | File n => good_name n
+  | Dir n ch =>
+    good_name n &&
+    (fix go (l : list tree) : bool := match l with [] => true | t' :: l' => wf_tree t' && go l' end) ch &&
+    uniq (map tname ch)
+  end.
+Definition wf_list (l : list tree) : bool := forallb wf_tree l && uniq (map tname l).
